@@ -155,14 +155,22 @@ func (g *histGen) genPolicy(prev *PolicySpec) PolicySpec {
 		p.Root.Version++
 		p.Root.GlobalRules = nil
 	}
-	if g.opts.globalRules && r.Chance(60) {
-		switch r.Intn(3) {
-		case 0:
-			p.Root.GlobalRules = append(p.Root.GlobalRules, GlobalRuleSpec{Name: "g-thr", Kind: "threshold", Patterns: []string{"git:refs/heads/main"}, Threshold: 1 + r.Intn(2)})
-		case 1:
-			p.Root.GlobalRules = append(p.Root.GlobalRules, GlobalRuleSpec{Name: "g-other", Kind: "threshold", Patterns: []string{"git:refs/heads/unrelated"}, Threshold: 1})
-		case 2:
-			p.Root.GlobalRules = append(p.Root.GlobalRules, GlobalRuleSpec{Name: "g-bfp", Kind: "block-force-pushes", Patterns: []string{"git:refs/heads/*"}})
+	if g.opts.globalRules && r.Chance(75) {
+		ng := 1 + r.Intn(2)
+		for k := 0; k < ng; k++ {
+			name := fmt.Sprintf("g%d", k)
+			switch r.Intn(5) {
+			case 0:
+				p.Root.GlobalRules = append(p.Root.GlobalRules, GlobalRuleSpec{Name: name, Kind: "threshold", Patterns: []string{"git:refs/heads/main"}, Threshold: 1 + r.Intn(2)})
+			case 1:
+				p.Root.GlobalRules = append(p.Root.GlobalRules, GlobalRuleSpec{Name: name, Kind: "threshold", Patterns: []string{"git:refs/heads/unrelated"}, Threshold: 1})
+			case 2:
+				p.Root.GlobalRules = append(p.Root.GlobalRules, GlobalRuleSpec{Name: name, Kind: "block-force-pushes", Patterns: []string{"git:refs/heads/*"}})
+			case 3:
+				p.Root.GlobalRules = append(p.Root.GlobalRules, GlobalRuleSpec{Name: name, Kind: "threshold", Patterns: []string{"git:refs/heads/*"}, Threshold: 1 + r.Intn(3)})
+			default:
+				p.Root.GlobalRules = append(p.Root.GlobalRules, GlobalRuleSpec{Name: name, Kind: "block-force-pushes", Patterns: []string{"git:refs/heads/free"}})
+			}
 		}
 	}
 	// principals: developers as Key or Person principals, disjoint keys
